@@ -602,3 +602,60 @@ func smallMultipleWindows(ks []int64) []*big.Int {
 	}
 	return out
 }
+
+// wideFoldInputs returns wide (33..64-byte) big-endian strings aimed at the carries of a special-form reduction: with c = 2^256 - p a
+// value hi*2^256 + lo is congruent to hi*c + lo, and each of the additions in such a fold (and the folds of its own carries, and the
+// final conditional subtraction) has a window a few units wide in which it carries.  Untrusted generator: the specification decides.
+func wideFoldInputs(r *rand.Rand) [][]byte {
+	cc := new(big.Int).Sub(big2_256, bigP)
+	var out [][]byte
+	emit := func(hi, lo *big.Int) {
+		if lo.Sign() < 0 || lo.Cmp(big2_256) >= 0 || hi.Sign() <= 0 || hi.BitLen() > 256 {
+			return
+		}
+		v := new(big.Int).Add(new(big.Int).Lsh(hi, 256), lo)
+		l := (v.BitLen() + 7) / 8
+		if l < 33 {
+			l = 33
+		}
+		for _, ll := range []int{l, 64} {
+			b := make([]byte, ll)
+			v.FillBytes(b)
+			out = append(out, b)
+		}
+	}
+	q := new(big.Int).Div(big2_256, cc)
+	his := []*big.Int{q, add(q, -1), add(q, 1), big.NewInt(1), big.NewInt(2), add(big2_256, -1), add(big2_256, -2), new(big.Int).Lsh(big.NewInt(1), 255)}
+	for _, bl := range []uint{8, 31, 32, 33, 64, 128, 192, 200, 222, 223, 224, 225, 255, 256} {
+		his = append(his, add(randBig(r, pow2(bl-1)), 0).Add(randBig(r, pow2(bl-1)), pow2(bl-1)))
+	}
+	for _, k := range []*big.Int{big.NewInt(2), big.NewInt(3), pow2(31), pow2(32), add(cc, -1), randBig(r, cc), randBig(r, cc)} { // hi * c just below k * 2^256
+		h := new(big.Int).Div(new(big.Int).Mul(k, big2_256), cc)
+		his = append(his, h, add(h, -1))
+	}
+	deltas := []*big.Int{big.NewInt(-2), big.NewInt(-1), big.NewInt(0), big.NewInt(1), big.NewInt(2), add(cc, -1), cc, add(cc, 1), new(big.Int).Neg(cc),
+		new(big.Int).Neg(add(cc, 1)), pow2(32), new(big.Int).Neg(pow2(32)), pow2(64)}
+	for _, hi := range his {
+		t := new(big.Int).Mul(hi, cc)
+		l2 := new(big.Int).Mod(t, big2_256)
+		h2 := new(big.Int).Rsh(t, 256)
+		h2c := new(big.Int).Mul(h2, cc)
+		for _, d := range deltas {
+			// the first fold's addition carries: l2 + lo = 2^256 + d
+			emit(hi, new(big.Int).Add(new(big.Int).Sub(big2_256, l2), d))
+			// ... or the sum with the carry of hi*c folded in as well does: l2 + lo + h2*c = 2^256 + d
+			emit(hi, new(big.Int).Add(new(big.Int).Sub(new(big.Int).Sub(big2_256, l2), h2c), d))
+			// ... or the folded value lands next to p (final conditional subtraction): l2 + lo + h2*c = p + d
+			emit(hi, new(big.Int).Add(new(big.Int).Sub(new(big.Int).Sub(bigP, l2), h2c), d))
+			// ... or next to 2p - 2^256 + ... (a second wrap): l2 + lo + h2*c = 2^256 + c + d
+			emit(hi, new(big.Int).Add(new(big.Int).Sub(new(big.Int).Sub(new(big.Int).Add(big2_256, cc), l2), h2c), d))
+			// ... or next to 2 * 2^256 - k c (both summands huge: the carry of the fold is folded in and carries AGAIN)
+			for k := int64(0); k <= 2; k++ {
+				tgt := new(big.Int).Sub(new(big.Int).Lsh(big2_256, 1), new(big.Int).Mul(big.NewInt(k), cc))
+				emit(hi, new(big.Int).Add(new(big.Int).Sub(new(big.Int).Sub(tgt, l2), h2c), d))
+			}
+			emit(hi, new(big.Int).Add(new(big.Int).Sub(new(big.Int).Sub(new(big.Int).Sub(big2_256, new(big.Int).Lsh(cc, 1)), l2), h2c), d))
+		}
+	}
+	return out
+}
